@@ -11,8 +11,16 @@ import (
 	"strings"
 	"testing"
 
+	"github.com/vulcand/oxy/v2/buffer"
+	"github.com/vulcand/oxy/v2/cbreaker"
+	"github.com/vulcand/oxy/v2/connlimit"
+	"github.com/vulcand/oxy/v2/roundrobin"
+	"github.com/vulcand/oxy/v2/stream"
+	"github.com/vulcand/oxy/v2/trace"
 	"github.com/vulcand/oxy/v2/utils"
 	"github.com/vulcand/oxy/v2/verifharness/vstat"
+	"io"
+	"net/http/httptest"
 	"pgregory.net/rapid"
 )
 
@@ -323,3 +331,106 @@ func FuzzC19_RemoteAddr(f *testing.F) {
 }
 
 var _ = os.Getenv
+
+type c19FmtLogger struct{}
+
+func (c19FmtLogger) Debug(f string, a ...interface{}) { _ = fmt.Sprintf(f, a...) }
+func (c19FmtLogger) Info(f string, a ...interface{})  { _ = fmt.Sprintf(f, a...) }
+func (c19FmtLogger) Warn(f string, a ...interface{})  { _ = fmt.Sprintf(f, a...) }
+func (c19FmtLogger) Error(f string, a ...interface{}) { _ = fmt.Sprintf(f, a...) }
+
+// TestC19_BehindMiddlewares: limiters sit behind other oxy middlewares. What the three built-in
+// variables yield for the request that arrives there is what they yield for the client's
+// request: the peer address, the Host, the header's (first) value - whatever the layers in
+// front log about the request (verbose modes) or do with its body and trailers (buffer).
+func TestC19_BehindMiddlewares(t *testing.T) {
+	rapid.Check(t, func(t *rapid.T) {
+		hname := rapid.SampledFrom([]string{"Authorization", "Cookie", "Proxy-Authorization", "X-Api-Key", "X-Src"}).Draw(t, "header")
+		hval := rapid.SampledFrom([]string{"", "Bearer abc.def", "sid=1; theme=dark", "k-123"}).Draw(t, "value")
+		variable := rapid.SampledFrom([]string{"client.ip", "request.host", "request.header." + hname}).Draw(t, "variable")
+		ex, err := utils.NewExtractor(variable)
+		if err != nil {
+			t.Fatalf("NewExtractor(%q): %v", variable, err)
+		}
+		mk := func() *http.Request {
+			body := rapid.SampledFrom([]string{"", "a=1&b=2", "hello"}).Draw(t, "body")
+			method := "GET"
+			var rd io.Reader
+			if body != "" {
+				method, rd = "POST", strings.NewReader(body)
+			}
+			req := httptest.NewRequest(method, "http://front.example/p?x=1;y=2", rd)
+			req.RemoteAddr = rapid.SampledFrom([]string{"10.1.2.3:4000", "[2001:db8::7]:4000", "[fe80::1%eth0]:4000"}).Draw(t, "peer")
+			req.Host = rapid.SampledFrom([]string{"front.example", "front.example:8443", "[::1]:80"}).Draw(t, "host")
+			if hval != "" {
+				req.Header.Set(hname, hval)
+			}
+			if body != "" {
+				req.Header.Set("Content-Type", "application/x-www-form-urlencoded")
+				if rapid.Bool().Draw(t, "chunkedWithTrailer") {
+					// a chunked upload whose trailer section names the very header a limiter may key on
+					req.ContentLength = -1
+					req.TransferEncoding = []string{"chunked"}
+					req.Trailer = http.Header{hname: {"from-the-trailer"}, "X-Checksum": {"abc"}}
+				}
+			}
+			return req
+		}
+		var got struct {
+			tok string
+			n   int64
+			err error
+			ran int
+		}
+		spy := http.HandlerFunc(func(w http.ResponseWriter, r *http.Request) {
+			got.ran++
+			got.tok, got.n, got.err = ex.Extract(r)
+		})
+		var h http.Handler = spy
+		var layers []string
+		for i := rapid.IntRange(1, 3).Draw(t, "depth"); i > 0; i-- {
+			kind := rapid.SampledFrom([]string{"buffer", "buffer-verbose", "stream-verbose", "cbreaker-verbose", "roundrobin-verbose", "trace", "connlimit-verbose"}).Draw(t, "layer")
+			layers = append(layers, kind)
+			var err error
+			switch kind {
+			case "buffer":
+				h, err = buffer.New(h)
+			case "buffer-verbose":
+				h, err = buffer.New(h, buffer.Verbose(true), buffer.Logger(c19FmtLogger{}))
+			case "stream-verbose":
+				h, err = stream.New(h, stream.Verbose(true), stream.Logger(c19FmtLogger{}))
+			case "cbreaker-verbose":
+				h, err = cbreaker.New(h, "NetworkErrorRatio() > 2.0", cbreaker.Verbose(true), cbreaker.Logger(c19FmtLogger{}))
+			case "trace":
+				h, err = trace.New(h, io.Discard, trace.RequestHeaders(hname))
+			case "connlimit-verbose":
+				ipx, _ := utils.NewExtractor("client.ip")
+				h, err = connlimit.New(h, ipx, 10, connlimit.Verbose(true), connlimit.Logger(c19FmtLogger{}))
+			case "roundrobin-verbose":
+				var rr *roundrobin.RoundRobin
+				rr, err = roundrobin.New(h, roundrobin.Verbose(true), roundrobin.Logger(c19FmtLogger{}))
+				if err == nil {
+					u, _ := url.Parse("http://backend:8080")
+					err = rr.UpsertServer(u)
+					h = rr
+				}
+			}
+			if err != nil {
+				t.Fatalf("building %s: %v", kind, err)
+			}
+		}
+		req := mk()
+		wantTok, wantN, wantErr := ex.Extract(req)
+		if variable != "client.ip" && (wantErr != nil || wantN != 1) {
+			t.Fatalf("direct extraction of %s failed: (%q,%d,%v)", variable, wantTok, wantN, wantErr)
+		}
+		h.ServeHTTP(httptest.NewRecorder(), req)
+		if got.ran != 1 {
+			t.Fatalf("the handler behind %v ran %d times", layers, got.ran)
+		}
+		if got.tok != wantTok || got.n != wantN || (got.err == nil) != (wantErr == nil) {
+			t.Fatalf("%s yields (%q,%d,%v) for the client's request but (%q,%d,%v) for the same request behind %v (header %s: %q, trailer: %v)", variable, wantTok, wantN, wantErr, got.tok, got.n, got.err, layers, hname, hval, req.Trailer)
+		}
+		vstat.Case(fmt.Sprintf("behind|%s|%v|%s|%s|%v", variable, layers, hname, hval, req.Trailer != nil), true, []string{"behind-other-middlewares"}, map[string]any{"variable": variable, "layers": layers, "header": hname, "value": hval})
+	})
+}
